@@ -53,6 +53,30 @@ def run_unit(spec):
                 'obligations': [], 'wall': time.time() - t0}
 
 
+def write_baseline(pids):
+    """record, per property, the names of the obligations discharged on the current tree
+    (run on the unchanged tree only; committed as baseline_obligations.json)"""
+    import props
+    base = load_baseline()
+    for pid in (pids or sorted(props.PROPS)):
+        ev = os.path.join(VERIF, 'evidence', '%s.json' % pid)
+        os.environ['VERIF_DUMP_NAMES'] = os.path.join(VERIF, 'evidence', '.names-%s.json' % pid)
+        rc = main([pid])
+        names = json.load(open(os.environ['VERIF_DUMP_NAMES'])) if os.path.exists(
+            os.environ['VERIF_DUMP_NAMES']) else []
+        try:
+            os.unlink(os.environ['VERIF_DUMP_NAMES'])
+        except OSError:
+            pass
+        if rc == 0:
+            base[pid] = sorted(set(names))
+        else:
+            print('baseline for %s not updated (exit %d)' % (pid, rc))
+    os.environ.pop('VERIF_DUMP_NAMES', None)
+    json.dump(base, open(os.path.join(VERIF, 'baseline_obligations.json'), 'w'), indent=0, sort_keys=True)
+    return 0
+
+
 def main(argv=None):
     argv = list(argv if argv is not None else sys.argv[1:])
     if not argv or argv[0] in ('-h', '--help'):
@@ -64,6 +88,8 @@ def main(argv=None):
     if argv[0] == '--replay':
         from pyvc import units
         return units.replay_file(argv[1])
+    if argv[0] == '--baseline':
+        return write_baseline(argv[1:])
     if argv[0] == '--selftest':
         from pyvc import selftest
         return selftest.full(argv[1:])
